@@ -418,6 +418,13 @@ class Checker:
                         if r.get('status') == 'violated':
                             confirmed = (r.get('scenario', i), r)
                             break
+            weak = [it[2].info.get('weakened_by') for it in its if isinstance(getattr(it[2], 'info', None), dict) and it[2].info.get('weakened_by')]
+            if weak and len(weak) == len(its) and not confirmed:
+                # every failing instance depends on an invariant clause that fell away because the code no longer has the
+                # temporary it names (bound('x') false): without a native witness this is "cannot decide", not a violation
+                self.deferred.append((clabel, f'{oname} fails only after the invariant clause about `{weak[0]}` fell away, and no '
+                                              'input reproduces a violation on the real code'))
+                continue
             safe = re.sub(r'[^A-Za-z0-9_.-]+', '_', oname)[:120]
             path = os.path.join(VERIF, 'replays', f'{self.prop}-{safe}.json')
             doc = {'property': self.prop, 'obligation': oname, 'function': getattr(c, 'key', 'lemma'),
